@@ -15,20 +15,30 @@ type modelProp struct {
 	rule    string
 	// optional extra body run inside the case after the program
 	after func(e *Env)
+	// optional hook run right after the Env was created
+	setup func(e *Env)
 	// optional metamorphic twin of a program
 	twin func(p *Program) *Program
 }
 
 func (mp *modelProp) runCase(t TB, prog *Program) {
 	st := statsFor(mp.id)
-	e := NewEnv(t, prog, mp.opts)
+	opts := mp.opts
+	if prog.Aux["direct"] == true {
+		// big single-index cases (TestC02Direct): explicit queries only
+		opts.SweepLevel, opts.SweepEveryOp = 0, false
+	}
+	e := NewEnv(t, prog, opts)
 	defer e.Teardown()
+	if mp.setup != nil {
+		mp.setup(e)
+	}
 	e.Run()
 	if mp.after != nil {
 		mp.after(e)
 	}
 	cfgFlags(e)
-	if mp.twin != nil {
+	if mp.twin != nil && prog.Aux["direct"] != true {
 		// metamorphic twin: same ops, other configuration; checked against the model too
 		p2 := mp.twin(prog)
 		e2 := NewEnv(t, p2, mp.opts)
